@@ -26,7 +26,10 @@ func newDeps(w *world) *nativeDeps {
 		}
 	}
 	var reg *driver.RegistryDefault
-	if len(w.shape.ns.Relations) == 0 && !w.strict {
+	if w.opl != "" {
+		reg = driver.NewSqliteTestRegistry(verifTB, false, driver.WithOPL(w.opl),
+			driver.WithConfig(config.KeyNamespacesExperimentalStrictMode, w.strict))
+	} else if len(w.shape.ns.Relations) == 0 && !w.strict {
 		reg = driver.NewSqliteTestRegistry(verifTB, false, driver.WithNamespaces([]*namespace.Namespace{w.shape.ns}))
 	} else {
 		// the configuration goes through the real OPL parser and type checker
@@ -37,9 +40,9 @@ func newDeps(w *world) *nativeDeps {
 	must(reg.Config(ctx).Set(config.KeyLimitMaxReadWidth, w.maxWidth))
 	if nm, err := reg.Config(ctx).NamespaceManager(); err != nil {
 		panic(err)
-	} else if nn, err := nm.Namespaces(ctx); err != nil || len(nn) != 1 {
+	} else if nn, err := nm.Namespaces(ctx); err != nil || (w.opl == "" && len(nn) != 1) {
 		panic("native replay: the OPL rendering of the configuration was not accepted")
-	} else if len(w.shape.ns.Relations) > 0 {
+	} else if w.opl == "" && len(w.shape.ns.Relations) > 0 {
 		// the parser must have produced exactly the shape's AST
 		got := nn[0]
 		if len(got.Relations) != len(w.shape.ns.Relations) {
